@@ -130,6 +130,9 @@ class Oracles:
         before = set(asyncio.all_tasks(w.loop))
         snap = self.snapshot(pm)
         expected = self.expected_rejection(pm, rm, causes)
+        if expected["must"] and self.program.get("suppress_rejected"):  # type: ignore[attr-defined]
+            w.label("twin:request-not-made")
+            return
         try:
             name = self.call_spawn(pm, rm, func_override=func)  # type: ignore[attr-defined]
         except Exception as e:
